@@ -347,6 +347,9 @@ def driver(seed, count):
         for _ in range(rng.choice([0, 0, 1, 1, 2])):
             args.append((rnum(rng, [1, 2, 4]), [0, 0]))
         rng.shuffle(args)
+        if i % 7 == 3 and f != 'COUNTA':      # (no draw is consumed) a scalar in exponent notation with a NEGATIVE exponent, as files spell small numbers
+            sc = [Fraction(1, 100000), Fraction(25, 10000), Fraction(5, 10), Fraction(-75, 100000), Fraction(3, 1000)][(i // 7) % 5]
+            args.append((dict(N(sc), sci=True), [0, 0]))
         e = {'f': f, 'args': [a for a, _ in args], 'lay': [l for _, l in args], 'path': path, 'origin': origin}
         if path == 'formula' and rng.random() < 0.5:
             prev = with_previous(rng, e)
@@ -427,6 +430,7 @@ def record(chunk):
             except ValueError:
                 pass
         e = dict(e, res=res)
+        e['args'] = [{k: v for k, v in a.items() if k != 'sci'} for a in e['args']]      # (the spelling is the harness's business, not the trace's)
         if text:
             e['formula'] = [ord(c) for c in text]
         out.append(e)
